@@ -252,8 +252,28 @@ def _heap_awaiter_entries(db):
         ctors = [db.resolve(f, e['callee_key'], e.get('callee_inst')) for e in f.events() if e.k == 'construct' and e.get('use') == 'arg:new' and e.get('callee_key')]
         ctors = [c for c in ctors if c is not None]
         classes = {class_of(db, c) for c in ctors} - {''}
+        via_smart = False
+        if not classes:
+            # the object may be created by std::make_unique<X>(...) (and released into self-ownership later): X is named by the result type
+            for e in f.events():
+                if e.k == 'call' and norm(e.get('callee') or '') in ('std::make_unique', 'std::make_unique_for_overwrite'):
+                    m_ = re.match(r'std::make_unique(?:_for_overwrite)?<\s*(?:class |struct )?([\w:]+)', e.get('callee_inst') or '')
+                    nm = m_.group(1).split('::')[-1] if m_ else None
+                    for c in db.all_instances():
+                        cls = class_of(db, c)
+                        # a constructor of a class of that name that is local to connect() or nested in signal
+                        if nm and cls and cls.split('::')[-1] == nm and c['nname'] == cls + '::' + nm and cls.startswith('cocls::signal'):
+                            ctors.append(c)
+            classes = {class_of(db, c) for c in ctors} - {''}
+            via_smart = bool(classes)
         if not classes:
             continue
+        if via_smart:
+            for e in f.events():
+                if e.k == 'call' and e.get('callee_key'):
+                    g = db.resolve(f, e['callee_key'], e.get('callee_inst'))
+                    if g is not None and class_of(db, g) in classes and g['nname'].rsplit('::', 1)[-1] != g['nname'].rsplit('::', 2)[-2:][0]:
+                        add(first, g)
         for e in f.events():
             if e.k == 'call' and e.get('callee_key') and e.get('recv_ev') is not None and f.ev(e['recv_ev']) is not None:
                 o = value_origin(f, f.ev(e['recv_ev']))
